@@ -37,8 +37,9 @@ def obligations(tier):
     obs = []
     for spec in SPECS:
         n = 5 if tier == "quick" else 6
-        obs.append(Ob(f"accessors/indicator/{spec_name(spec)}/n={n}", dict(spec=list(spec), n=n), CFG, fn="run_ind_accessors", weight=n * 5, budget_s=900))
-        obs.append(Ob(f"accessors/hexital/{spec_name(spec)}/n={n}", dict(spec=list(spec), n=n), CFG, fn="run_hex_accessors", weight=n * 5, budget_s=900))
+        for part in (0, 1, 2):     # the accessor list is split in three to spread the work over the cores
+            obs.append(Ob(f"accessors/indicator/{spec_name(spec)}/n={n}/part{part}", dict(spec=list(spec), n=n, part=part), CFG, fn="run_ind_accessors", weight=n * 5, budget_s=900))
+            obs.append(Ob(f"accessors/hexital/{spec_name(spec)}/n={n}/part{part}", dict(spec=list(spec), n=n, part=part), CFG, fn="run_hex_accessors", weight=n * 5, budget_s=900))
     for host in ("manager", "indicator", "hexital"):
         obs.append(Ob(f"encodings/{host}", dict(host=host, n=4), CFG, fn="run_encodings", weight=20, budget_s=900))
     return obs
@@ -64,7 +65,9 @@ def run_ind_accessors(ctx, P):
         twin.append(c)
     final = ind_state(twin)
     ctx.observe("final", twin.as_list())
-    for aname, acc in IND_ACCESSORS.items():
+    for k, (aname, acc) in enumerate(IND_ACCESSORS.items()):
+        if k % 3 != P.get("part", k % 3):
+            continue
         ind = build_any(spec, candles=clone(cs)[:2])
         ind.calculate()
         src = clone(cs)
@@ -95,7 +98,9 @@ def run_hex_accessors(ctx, P):
     final = hex_state(twin)
     name = list(twin.indicators)[0]
     ctx.observe("final", twin.reading_as_list(name))
-    for aname, acc in HEX_ACCESSORS.items():
+    for k, (aname, acc) in enumerate(HEX_ACCESSORS.items()):
+        if k % 3 != P.get("part", k % 3):
+            continue
         hx = mk()
         hx.calculate()
         src = clone(cs)
